@@ -611,6 +611,11 @@ func c15IsLimitNormaliser(h *ssa.Function) bool {
 			sawDefault = true
 		case *ssa.Const:
 			sawDefault = true
+		case *ssa.Call:
+			if !c15IsOrDefault(v, np) {
+				return false
+			}
+			sawDefault, sawParam = true, true
 		default:
 			return false
 		}
@@ -618,7 +623,60 @@ func c15IsLimitNormaliser(h *ssa.Function) bool {
 	return sawDefault && sawParam
 }
 
+// c15IsOrDefault: v = cmp.Or(max(n, 0), default) — the first non-zero of the
+// given limit clamped at zero and the default, i.e. n when positive, else the default.
+func c15IsOrDefault(v ssa.Value, param *ssa.Parameter) bool {
+	call, ok := v.(*ssa.Call)
+	if !ok || CalleeName(call) != "cmp.Or" || len(call.Call.Args) != 1 {
+		return false
+	}
+	// variadic: the elements stored into the backing array
+	var elems []ssa.Value
+	if sl, isSlice := call.Call.Args[0].(*ssa.Slice); isSlice {
+		if al, isAlloc := sl.X.(*ssa.Alloc); isAlloc {
+			byIdx := map[int64]ssa.Value{}
+			for _, r := range *al.Referrers() {
+				if ia, isIA := r.(*ssa.IndexAddr); isIA {
+					k, _ := c13ConstInt(ia.Index)
+					for _, r2 := range *ia.Referrers() {
+						if st, isStore := r2.(*ssa.Store); isStore {
+							byIdx[k] = st.Val
+						}
+					}
+				}
+			}
+			for i := int64(0); i < int64(len(byIdx)); i++ {
+				elems = append(elems, byIdx[i])
+			}
+		}
+	}
+	if len(elems) != 2 {
+		return false
+	}
+	first, isCall := elems[0].(*ssa.Call)
+	if !isCall || CalleeName(first) != "builtin:max" || len(first.Call.Args) != 2 {
+		return false
+	}
+	a, b := first.Call.Args[0], first.Call.Args[1]
+	ka, okA := c13ConstInt(a)
+	kb, okB := c13ConstInt(b)
+	clamped := (a == ssa.Value(param) && okB && kb == 0) || (b == ssa.Value(param) && okA && ka == 0)
+	if !clamped {
+		return false
+	}
+	d := strip(elems[1])
+	if ld, isLoad := d.(*ssa.UnOp); isLoad && ld.Op == token.MUL {
+		_, isG := ld.X.(*ssa.Global)
+		return isG
+	}
+	k, isC := c13ConstInt(d)
+	return isC && k > 0
+}
+
 func c15LimitValueOK(fn *ssa.Function, lim ssa.Value, param *ssa.Parameter) (ok bool, why string) {
+	if c15IsOrDefault(lim, param) {
+		return true, ""
+	}
 	// the effective limit computed by a shared normalising helper from the given limit
 	if call, isCall := lim.(*ssa.Call); isCall && len(call.Call.Args) == 1 && call.Call.Args[0] == ssa.Value(param) && c15IsLimitNormaliser(StaticCallee(call)) {
 		return true, ""
@@ -979,6 +1037,59 @@ func c15FeedsLastParam(fn *ssa.Function, vals map[ssa.Value]bool, depth int) boo
 	return false
 }
 
+// c15Driver: a pagination loop: a function with a loop around page calls —
+// static calls of a page function, or calls of a func(string) (string, error)
+// parameter (a generic driver; the page functions are bound by its callers).
+type c15Driver struct {
+	fn    *ssa.Function
+	loop  *Loop
+	calls []ssa.CallInstruction // all page calls of fn (at least one inside the loop)
+	page  *ssa.Function         // static page function, nil for a generic driver
+	fetch *ssa.Parameter        // the fetcher parameter of a generic driver
+}
+
+func c15IsFetcherType(t types.Type) bool {
+	sig, ok := types.Unalias(t).Underlying().(*types.Signature)
+	if !ok || sig.Params().Len() != 1 || sig.Results().Len() != 2 {
+		return false
+	}
+	return types.Identical(sig.Params().At(0).Type(), types.Typ[types.String]) && types.Identical(sig.Results().At(0).Type(), types.Typ[types.String]) && isErrorType(sig.Results().At(1).Type())
+}
+
+func c15Drivers(p *Prog) []c15Driver {
+	var out []c15Driver
+	for _, pl := range c15PageLoops(p) {
+		out = append(out, c15Driver{fn: pl.fn, loop: pl.loop, calls: []ssa.CallInstruction{pl.call}, page: pl.page})
+	}
+	for _, f := range p.FuncsOfPkg(c13PkgRemote) {
+		for _, prm := range f.Params {
+			if !c15IsFetcherType(prm.Type()) {
+				continue
+			}
+			al := Aliases(prm)
+			var calls []ssa.CallInstruction
+			for _, ci := range Calls(f, func(string) bool { return true }) {
+				if _, isCall := ci.(*ssa.Call); isCall && !ci.Common().IsInvoke() && al[ci.Common().Value] {
+					calls = append(calls, ci)
+				}
+			}
+			for _, l := range Loops(f) {
+				in := false
+				for _, ci := range calls {
+					if l.Contains(ci.(ssa.Instruction)) {
+						in = true
+					}
+				}
+				if in {
+					out = append(out, c15Driver{fn: f, loop: l, calls: calls, fetch: prm})
+					break
+				}
+			}
+		}
+	}
+	return out
+}
+
 func c15PageLoops(p *Prog) []c15PageLoop {
 	var out []c15PageLoop
 	for _, f := range p.FuncsOfPkg(c13PkgRemote) {
@@ -1025,16 +1136,16 @@ func c15R2(c *Ctx) {
 		RP = "C15.R2.page-function"
 		RK = "C15.R2.link-parser"
 	)
-	c.Expect(RL, 14) // 3 loops × (url-advances, exit-iff-error, only-no-link-ends, page-call-every-iteration) + 2 × last-first-page-only
+	c.Expect(RL, 9) // per loop 4 (+ last-first-page-only); with one shared generic driver: 4 + per bound page fetcher 1 (+ last): 9 is the minimum
 	c.Expect(RP, 23)
 	c.Expect(RK, 3)
 	if c.P.Obj(c13PkgRemote, "errNoLink") == nil {
 		c.LostAnchor(RL, c15NoLink+" (end-of-pages sentinel)")
 		return
 	}
-	loops := c15PageLoops(c.P)
-	if len(loops) == 0 {
-		c.LostAnchor(RL, "page loops (a loop calling a function (string, error) that performs an HTTP exchange) in ~/registry/remote")
+	drivers := c15Drivers(c.P)
+	if len(drivers) == 0 {
+		c.LostAnchor(RL, "page loops (a loop calling a page function, or a func(string) (string, error) parameter) in ~/registry/remote")
 		return
 	}
 	links := c15LinkFns(c.P)
@@ -1044,52 +1155,76 @@ func c15R2(c *Ctx) {
 	}
 	LK := links[0]
 	pages := map[*ssa.Function]bool{}
-	for _, pl := range loops {
-		f, l, P := pl.fn, pl.loop, pl.call
-		fnm := FnName(f)
-		pages[pl.page] = true
-		args := P.Common().Args
-		// parameters of the page function: which is the URL (flows to NewRequestWithContext), which is `last`
-		urlIdx, lastIdx := -1, -1
-		for i, prm := range pl.page.Params {
+	pageIdx := func(pg *ssa.Function) (urlIdx, lastIdx int) {
+		urlIdx, lastIdx = -1, -1
+		for i, prm := range pg.Params {
 			al := Aliases(prm)
-			for _, nr := range CallsTo(pl.page, "net/http.NewRequestWithContext") {
+			for _, nr := range CallsTo(pg, "net/http.NewRequestWithContext") {
 				if al[nr.Common().Args[2]] {
 					urlIdx = i
 				}
 			}
-			if c15FeedsLastParam(pl.page, al, 2) {
+			if c15FeedsLastParam(pg, al, 2) {
 				lastIdx = i
 			}
 		}
+		return
+	}
+	for _, d := range drivers {
+		f, l := d.fn, d.loop
+		fnm := FnName(f)
+		urlIdx, lastIdx := 0, -1
+		if d.page != nil {
+			pages[d.page] = true
+			urlIdx, lastIdx = pageIdx(d.page)
+		}
+		var inLoop []ssa.CallInstruction
+		allCalls := newCut()
+		next := map[ssa.Value]bool{}
+		errAl := map[ssa.Value]bool{}
+		for _, P := range d.calls {
+			allCalls.Instr(P.(ssa.Instruction))
+			if l.Contains(P.(ssa.Instruction)) {
+				inLoop = append(inLoop, P)
+			}
+			for a := range c13AliasSet(ResultOf(P, 0)) {
+				next[a] = true
+			}
+			for a := range c13AliasSet(ErrOf(P)) {
+				errAl[a] = true
+			}
+		}
+		P0 := inLoop[0]
 		// (1) url advances
-		okURL, why := false, "the page function's URL parameter was not identified"
-		if urlIdx >= 0 {
-			why = "the URL argument of the page call is not a loop-carried value fed from the page function's first result"
-			if phi, ok := args[urlIdx].(*ssa.Phi); ok && phi.Block() == l.Header {
-				okURL = true
-				next := ResultOf(P, 0)
-				for i, pred := range phi.Block().Preds {
-					if l.Blocks[pred] && (next == nil || !c13RootsIn(phi.Edges[i], c13AliasSet(next))) {
-						okURL = false
-					}
+		okURL, why := urlIdx >= 0, "the page function's URL parameter was not identified"
+		for _, P := range inLoop {
+			if urlIdx < 0 {
+				break
+			}
+			phi, isPhi := P.Common().Args[urlIdx].(*ssa.Phi)
+			if !isPhi || phi.Block() != l.Header {
+				okURL, why = false, "the URL argument of the page call is not a loop-carried value fed from the page function's first result"
+				continue
+			}
+			for i, pred := range phi.Block().Preds {
+				if l.Blocks[pred] && !c13RootsIn(phi.Edges[i], next) {
+					okURL, why = false, "the URL argument of the page call is not a loop-carried value fed from the page function's first result"
 				}
 			}
 		}
-		c.Check(RL, fnm+"|url-advances", P.Pos(), okURL, ifelse(okURL, "the URL sent on the next iteration is the link returned by the page function", why+": the same page would be requested for ever"))
-		// (2) the page call runs on every iteration, loop leaves only on its error
-		e := ErrOf(P)
+		c.Check(RL, fnm+"|url-advances", P0.Pos(), okURL, ifelse(okURL, "the URL sent on the next iteration is the link returned by the page function", why+": the same page would be requested for ever"))
+		// (2) a page call runs on every iteration; the loop leaves only on its error
 		okEvery := true
+		inLoopCut := newCut().Calls(inLoop)
 		for _, be := range l.Backs {
-			if reach(l.Header, 0, be.From.Instrs[len(be.From.Instrs)-1], newCut().Instr(P.(ssa.Instruction))) {
+			if reach(l.Header, 0, be.From.Instrs[len(be.From.Instrs)-1], inLoopCut) {
 				okEvery = false
 			}
 		}
-		c.Check(RL, fnm+"|page-call-every-iteration", P.Pos(), okEvery, "every path around the loop calls the page function")
-		okExit, whyExit := e != nil, "the page function's error is discarded"
-		if e != nil {
-			al := Aliases(e)
-			nilAll, nonNilAll, _ := NilTests(f, al)
+		c.Check(RL, fnm+"|page-call-every-iteration", P0.Pos(), okEvery, "every path around the loop calls the page function")
+		okExit, whyExit := len(errAl) > 0, "the page function's error is discarded"
+		if okExit {
+			nilAll, nonNilAll, _ := NilTests(f, errAl)
 			var nilE, nonNilE []Edge
 			for _, x := range nilAll {
 				if l.Blocks[x.From] {
@@ -1101,47 +1236,59 @@ func c15R2(c *Ctx) {
 					nonNilE = append(nonNilE, x)
 				}
 			}
-			Pi := P.(ssa.Instruction)
-			switch {
-			case len(nilE) == 0:
+			if len(nilE) == 0 {
 				okExit, whyExit = false, "the page function's error is not tested inside the loop"
-			case !MustPassBetween(Pi, Pi, newCut().Edges(nilE...)):
-				okExit, whyExit = false, "the next page can be requested although the page function failed (the loop continues past a non-nil error)"
+			}
+			for _, Pa := range d.calls {
+				for _, Pb := range inLoop {
+					if okExit && !MustPassBetween(Pa.(ssa.Instruction), Pb.(ssa.Instruction), newCut().Edges(nilE...)) {
+						okExit, whyExit = false, "the next page can be requested although the page function failed (the loop continues past a non-nil error)"
+					}
+				}
 			}
 			// with a nil error the loop goes on to the next page call: no way out without calling the page function again
 			for _, ne := range nilE {
 				for _, x := range l.Exits {
-					if okExit && len(x.To.Instrs) > 0 && reach(ne.To, 0, x.To.Instrs[0], newCut().Instr(Pi)) {
+					if okExit && len(x.To.Instrs) > 0 && reach(ne.To, 0, x.To.Instrs[0], allCalls) {
 						okExit, whyExit = false, "the loop can be left although the page function succeeded and returned a next link: pages would be dropped"
 					}
 				}
 			}
 			// after an error no further page is requested
 			for _, nn := range nonNilE {
-				if okExit && reach(nn.To, 0, Pi, nil) {
-					okExit, whyExit = false, "after a failed page call another page call is reachable"
+				for _, Pb := range d.calls {
+					if okExit && reach(nn.To, 0, Pb.(ssa.Instruction), nil) {
+						okExit, whyExit = false, "after a failed page call another page call is reachable"
+					}
 				}
 			}
 		}
 		c.Check(RL, fnm+"|exit-iff-error", blockPos(l.Header), okExit,
 			ifelse(okExit, "the next page is requested only over the nil edge of the page function's error, and with a nil error the loop is not left", whyExit))
 		// (3) only errNoLink maps to success
-		r := ErrFlow(P, ErrFlowOpts{Tolerated: []string{c15NoLink}})
-		okTol, whyTol := r.OK, r.Detail
-		if e != nil && okTol {
+		okTol, whyTol := true, ""
+		tol := toleratedEdges(f, errAl, []string{c15NoLink})
+		for _, P := range d.calls {
+			if r := ErrFlow(P, ErrFlowOpts{Tolerated: []string{c15NoLink}}); !r.OK {
+				okTol, whyTol = false, r.Detail
+				continue
+			}
 			// every possibly-nil return after a page call (before the next one) lies behind `err is errNoLink`
 			// (also when that test comes before the nil test, as in `for { …; if err == errNoLink { return nil } … }`)
-			tol := toleratedEdges(f, Aliases(e), []string{c15NoLink})
+			ct := newCut().Edges(tol...)
+			for k := range allCalls.instrs {
+				ct.instrs[k] = true
+			}
 			pb, pi := c13AfterSite(P)
-			if bad := c13SuccessEscapes(f, pb, pi, newCut().Edges(tol...).Instr(P.(ssa.Instruction)), nil); bad != nil {
+			if bad := c13SuccessEscapes(f, pb, pi, ct, nil); bad != nil {
 				okTol, whyTol = false, fmt.Sprintf("the return at %s (error %s) reports success after a page call although the page function's error was not found to be errNoLink", c.P.Pos(bad.Ret.Pos()), describe(bad.Val))
 			}
 		}
-		c.Check(RL, fnm+"|only-no-link-ends-listing", P.Pos(), okTol, ifelse(okTol, "after a page call success is reported only over the edge err == errNoLink; every other error is returned", whyTol))
+		c.Check(RL, fnm+"|only-no-link-ends-listing", P0.Pos(), okTol, ifelse(okTol, "after a page call success is reported only over the edge err == errNoLink; every other error is returned", whyTol))
 		// (4) last only on the first page
-		if lastIdx >= 0 {
+		if d.page != nil && lastIdx >= 0 {
 			okLast := false
-			if phi, ok := args[lastIdx].(*ssa.Phi); ok && phi.Block() == l.Header {
+			if phi, ok := P0.Common().Args[lastIdx].(*ssa.Phi); ok && phi.Block() == l.Header {
 				okLast = true
 				for i, pred := range phi.Block().Preds {
 					if l.Blocks[pred] {
@@ -1151,8 +1298,103 @@ func c15R2(c *Ctx) {
 					}
 				}
 			}
-			c.Check(RL, fnm+"|last-first-page-only", P.Pos(), okLast,
+			c.Check(RL, fnm+"|last-first-page-only", P0.Pos(), okLast,
 				ifelse(okLast, "`last` is the caller's value on the first page and \"\" afterwards", "`last` is sent again on later pages: it overrides the position encoded in the Link URL and the listing repeats / never ends"))
+		}
+		// (5) a generic driver: every function handed to it as the page fetcher is an adapter of a page function
+		if d.fetch == nil {
+			continue
+		}
+		fidx := -1
+		for i, p := range f.Params {
+			if p == d.fetch {
+				fidx = i
+			}
+		}
+		bound := 0
+		for _, g := range c.P.FuncsOfPkg(c13PkgRemote) {
+			for _, call := range c13CallsToFn(g, f) {
+				bound++
+				var K *ssa.Function
+				for _, r := range Roots(call.Common().Args[fidx]) {
+					switch k := strip(r).(type) {
+					case *ssa.MakeClosure:
+						K = k.Fn.(*ssa.Function)
+					case *ssa.Function:
+						K = k
+					}
+				}
+				kn := FnName(g) + "|page-fetcher"
+				if K == nil || len(K.Blocks) == 0 {
+					c.Undecided(RL, kn, call.Pos(), "the page fetcher handed to "+fnm+" cannot be resolved to a function")
+					continue
+				}
+				var pcs []ssa.CallInstruction
+				for _, ci := range Calls(K, func(string) bool { return true }) {
+					if c15IsPageFn(StaticCallee(ci)) {
+						pcs = append(pcs, ci)
+					}
+				}
+				if len(pcs) != 1 {
+					c.Violation(RL, kn, call.Pos(), fmt.Sprintf("the page fetcher %s does not call exactly one page function (found %d)", FnName(K), len(pcs)))
+					continue
+				}
+				pc := pcs[0]
+				pg := StaticCallee(pc)
+				pages[pg] = true
+				uI, lI := pageIdx(pg)
+				okFwd := uI >= 0 && len(K.Params) > 0 && Aliases(K.Params[len(K.Params)-1])[pc.Common().Args[uI]]
+				nextV, errV := c13AliasSet(ResultOf(pc, 0)), c13AliasSet(ErrOf(pc))
+				for _, ra := range RetAtoms(K, 0) {
+					if !nextV[ra.Val] {
+						okFwd = false
+					}
+				}
+				for _, ra := range RetAtoms(K, 1) {
+					if !errV[ra.Val] {
+						okFwd = false
+					}
+				}
+				c.Check(RL, FnName(K)+"|adapter-forwards-page", pc.Pos(), okFwd, ifelse(okFwd, "the fetcher requests the URL it is given from the page function and hands back its link and error unchanged", "the page fetcher does not pass its URL to the page function, or does not return the page function's link and error as they are"))
+				if lI < 0 {
+					continue
+				}
+				// `last`: the captured variable is passed and cleared ("" stored) on every path of the fetcher
+				okLast := false
+				larg := pc.Common().Args[lI]
+				if s, isConst := constString(larg); isConst && s == "" {
+					okLast = true
+				}
+				for _, r := range Roots(larg) {
+					ld, isLoad := r.(*ssa.UnOp)
+					if !isLoad || ld.Op != token.MUL {
+						continue
+					}
+					fv, isFV := ld.X.(*ssa.FreeVar)
+					if !isFV {
+						continue
+					}
+					var clears []ssa.Instruction
+					AllInstrs(K, func(in ssa.Instruction) {
+						if st, ok := in.(*ssa.Store); ok && st.Addr == ssa.Value(fv) {
+							if sv, isC := constString(st.Val); isC && sv == "" {
+								clears = append(clears, st)
+							}
+						}
+					})
+					okLast = len(clears) > 0
+					for _, ret := range Returns(K) {
+						if !MustPass(ret, newCut().Instr(clears...)) {
+							okLast = false
+						}
+					}
+				}
+				c.Check(RL, FnName(K)+"|last-first-page-only", pc.Pos(), okLast,
+					ifelse(okLast, "`last` is read from the captured variable, which every call of the fetcher clears: only the first page carries it", "`last` is sent again on later pages: it overrides the position encoded in the Link URL and the listing repeats / never ends"))
+			}
+		}
+		if bound == 0 {
+			c.Violation(RL, fnm+"|page-fetcher", f.Pos(), "the generic pagination driver is never given a page fetcher")
 		}
 	}
 	// page functions
@@ -1409,7 +1651,10 @@ func c15R3(c *Ctx) {
 		}
 		var skip []Edge
 		if conditional {
-			skip = c13FactEdgesOfConds(fn, c13OrClass(c13EmptyStringClass(at), appliedClass))
+			base := func(_ *ssa.Function, sets []map[ssa.Value]bool) c13CondClass {
+				return c13OrClass(c13EmptyStringClass(sets[0]), appliedClass)
+			}
+			skip = c13FactEdgesOfConds(fn, c13PredicateClass(base, fn, []map[ssa.Value]bool{at}, 2))
 		}
 		sawFiltered := false
 		for _, lf := range c13Leaves(v) {
@@ -1497,6 +1742,12 @@ func c15R4(c *Ctx) {
 		}
 		if !calls {
 			return false
+		}
+		if f.Name() == "Tags" && f.Signature.Recv() != nil {
+			return false // the exported methods are checked by c15TagsMethods
+		}
+		if len(c15StreamListCalls(f)) > 0 {
+			return true
 		}
 		for _, l := range Loops(f) {
 			if ranged, _, _, _, ok := l.RangeMap(); ok {
@@ -1763,7 +2014,106 @@ func c15SortedSource(c *Ctx, v ssa.Value, at ssa.Instruction, isLister map[*ssa.
 	return stores > 0
 }
 
+// c15StreamListCalls: callback calls of f whose list is collected from an
+// iterator pipeline: fn(slices.Sorted(seq)) / slices.Collect(seq) (+ sort).
+func c15StreamListCalls(f *ssa.Function) []ssa.CallInstruction {
+	var out []ssa.CallInstruction
+	for _, cb := range Calls(f, func(n string) bool { return strings.HasPrefix(n, "dyn:param:") }) {
+		if len(cb.Common().Args) != 1 {
+			continue
+		}
+		for _, r := range Roots(cb.Common().Args[0]) {
+			if call, ok := r.(*ssa.Call); ok && (CalleeName(call) == "slices.Sorted" || CalleeName(call) == "slices.Collect") {
+				out = append(out, cb)
+			}
+		}
+	}
+	return out
+}
+
+// c15CheckStreamLister: the lister collects its tags from an iterator
+// pipeline; the per-tag conditions are looked for in the producers, adapters
+// and predicates of the pipeline (c13StreamHasFact).
+func c15CheckStreamLister(c *Ctx, R4 string, f *ssa.Function, cb ssa.CallInstruction) {
+	fn := FnName(f)
+	var last *ssa.Parameter
+	for _, p := range f.Params {
+		if types.Identical(p.Type(), types.Typ[types.String]) {
+			last = p
+		}
+	}
+	top := &c13Frame{Fn: f}
+	var collect *ssa.Call
+	for _, r := range Roots(cb.Common().Args[0]) {
+		if call, ok := r.(*ssa.Call); ok {
+			collect = call
+		}
+	}
+	okSort := CalleeName(collect) == "slices.Sorted"
+	if !okSort {
+		sorts := Calls(f, func(n string) bool { return n == "slices.Sort" || n == "sort.Strings" })
+		okSort = len(sorts) > 0 && MustPass(cb.(ssa.Instruction), newCut().Calls(sorts))
+	}
+	c.Check(R4, fn+"|sorted-before-callback", cb.Pos(), okSort, ifelse(okSort, "the list handed to the callback is slices.Sorted(…) / sorted before the call", "the tags are handed to the callback unsorted"))
+	if last == nil {
+		c.LostAnchor(R4, fn+": `last` parameter")
+		return
+	}
+	lastO := c13Origin{last, top}
+	setsOf := func(fr *c13Frame, elem map[ssa.Value]bool) []map[ssa.Value]bool {
+		return []map[ssa.Value]bool{elem, c13ValuesOriginating(fr, lastO)}
+	}
+	mk := func(base func(fn *ssa.Function, sets []map[ssa.Value]bool) c13CondClass) c13StreamFact {
+		return func(fr *c13Frame, at ssa.Instruction, elem ssa.Value) bool {
+			el := Aliases(elem)
+			edges := c13FactEdgesOfConds(fr.Fn, c13FrameClass(fr, base, setsOf, el, 3))
+			return len(edges) > 0 && MustPass(at, newCut().Edges(edges...))
+		}
+	}
+	seq := collect.Call.Args[0]
+	okAfter, whyA := c13StreamHasFact(seq, top, mk(c15AfterOrNoLastBase), 16)
+	c.Check(R4, fn+"|only-tags-after-last", cb.Pos(), okAfter, ifelse(okAfter, "every element of the iterator pipeline passed last == \"\" or tag > last", "a tag not after `last` can be listed: "+whyA))
+	okDg, whyD := c13StreamHasFact(seq, top, mk(c15NotDigestBase), 16)
+	c.Check(R4, fn+"|digest-entries-skipped", cb.Pos(), okDg, ifelse(okDg, "every element of the iterator pipeline passed tag != desc.Digest.String()", "digest-named entries of the tag map can be listed as tags: "+whyD))
+}
+
+// classifier factories over (tag values, last values)
+func c15AfterBase(_ *ssa.Function, sets []map[ssa.Value]bool) c13CondClass {
+	return func(cond ssa.Value) (bool, bool) {
+		op, other, ok := c13CmpNorm(cond, sets[0])
+		if !ok || !sets[1][other] {
+			return false, false
+		}
+		return op == token.GTR, op == token.LEQ
+	}
+}
+
+func c15AfterOrNoLastBase(fn *ssa.Function, sets []map[ssa.Value]bool) c13CondClass {
+	return c13OrClass(c15AfterBase(fn, sets), c13EmptyStringClass(sets[1]))
+}
+
+func c15NotDigestBase(_ *ssa.Function, sets []map[ssa.Value]bool) c13CondClass {
+	return func(cond ssa.Value) (bool, bool) {
+		op, other, ok := c13CmpNorm(cond, sets[0])
+		if !ok {
+			return false, false
+		}
+		for _, r := range Roots(other) {
+			if call, isCall := r.(*ssa.Call); isCall && CalleeName(call) == "(digest.Digest).String" {
+				return op == token.NEQ, op == token.EQL
+			}
+		}
+		return false, false
+	}
+}
+
 func c15CheckLister(c *Ctx, R4 string, f *ssa.Function) {
+	if cbs := c15StreamListCalls(f); len(cbs) > 0 {
+		for _, cb := range cbs {
+			c15CheckStreamLister(c, R4, f, cb)
+		}
+		return
+	}
 	fn := FnName(f)
 	cb := Calls(f, func(n string) bool { return strings.HasPrefix(n, "dyn:param:") })[0]
 	sorts := Calls(f, func(n string) bool { return n == "slices.Sort" || n == "sort.Strings" })
@@ -1808,31 +2158,7 @@ func c15CheckLister(c *Ctx, R4 string, f *ssa.Function) {
 			continue
 		}
 		tagAl := Aliases(tag)
-		// classifier factories over (tag values, last values), so that predicate helpers can be summarised
-		afterBase := func(_ *ssa.Function, sets []map[ssa.Value]bool) c13CondClass {
-			return func(cond ssa.Value) (bool, bool) {
-				op, other, ok := c13CmpNorm(cond, sets[0])
-				if !ok || !sets[1][other] {
-					return false, false
-				}
-				return op == token.GTR, op == token.LEQ
-			}
-		}
-		afterOrNoLastBase := func(fn *ssa.Function, sets []map[ssa.Value]bool) c13CondClass {
-			return c13OrClass(afterBase(fn, sets), c13EmptyStringClass(sets[1]))
-		}
-		notDigestBase := func(_ *ssa.Function, sets []map[ssa.Value]bool) c13CondClass {
-			return func(cond ssa.Value) (bool, bool) {
-				op, other, ok := c13CmpNorm(cond, sets[0])
-				if !ok {
-					return false, false
-				}
-				if call, isCall := other.(*ssa.Call); isCall && CalleeName(call) == "(digest.Digest).String" {
-					return op == token.NEQ, op == token.EQL
-				}
-				return false, false
-			}
-		}
+		afterBase, afterOrNoLastBase, notDigestBase := c15AfterBase, c15AfterOrNoLastBase, c15NotDigestBase
 		sets := []map[ssa.Value]bool{tagAl, lastAl}
 		afterClass := afterBase(f, sets)
 		after := c13FactEdgesOfConds(f, c13PredicateClass(afterBase, f, sets, 2))
